@@ -6,6 +6,8 @@ positioned after the section's END marker.  Malformed or truncated input may rai
 under `raises` (C05: it must not loop); a truncated NUMBER always leads to such an exception before a normal return,
 which is what the `complete` clauses of the loop invariants carry.
 """
+import os
+
 try:
     import z3
 except Exception:  # concrete-only interpreter
@@ -248,6 +250,68 @@ class SubstreamsInfoRead(Contract):
             ("stream-counts", ForAll(lambda k: And(nth(cutsN, k + 1) == nth(cutsN, k) + SP.NL(d, nth(cutsN, k)), nth(nus, k) == SP.NV(d, nth(cutsN, k))), guard=lambda k: And(has_nus, k >= 0, k < nf), over=cutsN, trigger=False)),
             ("frame-data", eq(c.data(file), d)),
         ]
+        if conc(c) or c.eng.ctx_mode == "assume" or not os.environ.get("VERIF_SSREAD_POSTS"):
+            # The loop invariants above already carry the per-substream facts (sizes, digest hand-out, counters).  The
+            # exit clauses below restate them over the whole section; they are NOT part of the claimed check yet: 25 of
+            # their 535 instances are still open and the run takes 20+ minutes (set VERIF_SSREAD_POSTS=1 to work on them).
+            return out
+        # ---- the rest of the section, stated over the ghost sequences the loops maintain (prove mode only: no caller
+        #      of this function is under contract, so nobody consumes these clauses modularly)
+        g = c.eng.ghost
+        rl = c.rl(folders)
+        ups = c.f(self_, "unpacksizes")
+        dd, dg = c.f(self_, "digestsdefined"), c.f(self_, "digests")
+        total = psum(c, "rnus", nus, nf)
+        has_size = nth(d, pA) == 0x09
+        sized = pick(c, has_size, True, False)
+        if sized:
+            cutsZ, foZ = g.get("cutsRZ"), g.get("foRZ")
+            if cutsZ is None:
+                out.append(("sizes-read-from-the-record", False))
+                return out
+            out += [
+                ("sizes-one-per-substream", And(L(ups) == total, nth(cutsZ, 0) == pA + 1)),
+                ("sizes-all-but-last-of-each-folder", ForAll(lambda q: sizesQ(c, d, cutsZ, foZ, nus, ups, folders, nf, q), guard=lambda q: And(q >= 0, q < total), over=cutsZ, trigger=False)),
+            ]
+            pB = nth(cutsZ, total)
+        else:
+            one = lambda k: V.SInt(V.uf("rank_one_stream", z3.IntSort(), z3.IntSort())(V._zi(k)))
+            out += [
+                ("without-size-record-one-size-per-one-stream-folder", L(ups) == one(nf)),
+                ("without-size-record-the-folder-sizes", ForAll(lambda k: nth(ups, one(k)) == fsize(c, folders, k), guard=lambda k: And(k >= 0, k < nf, nth(nus, k) == 1), over=nus)),
+            ]
+            pB = pA
+        has_crc = nth(d, pB) == 0x0A
+        with_crc = pick(c, has_crc, True, False)
+        out.append(("one-digest-entry-per-substream", And(L(dd) == total, L(dg) == total)))
+        ndf = V.SInt(V.uf("digests_in_record_before_folder", z3.IntSort(), z3.IntSort())(V._zi(nf)))
+        if with_crc:
+            src, foD, defined, crcs = g.get("srcRD"), g.get("foRD"), g.get("definedRD"), g.get("crcsRD")
+            if src is None:
+                out.append(("digests-read-from-the-record", False))
+                return out
+            q = pB + 1
+            shortcut = nth(d, q) != 0
+
+            def DQd(m):
+                f = nth(foD, m)
+                s_ = nth(src, m)
+                own = And(nth(nus, f) == 1, rl.val("digestdefined", f))
+                rk = rank(c, "rdef", defined, s_)
+                cst = ite(shortcut, q + 1, q + 1 + ceil8(ndf))
+                flag = ite(shortcut, True, SP.bit(d, q + 1, s_))
+                return And(
+                    f >= 0, f < nf, psum(c, "rnus", nus, f) <= m, m < psum(c, "rnus", nus, f + 1),
+                    Implies(s_ < 0, And(own, nth(dd, m), nth(dg, m) == rl.val("crc", f))),
+                    Implies(s_ >= 0, And(Not(own), s_ == V.SInt(V.uf("digests_in_record_before_folder", z3.IntSort(), z3.IntSort())(V._zi(f))) + (m - psum(c, "rnus", nus, f)), nth(dd, m) == flag, Implies(nth(dd, m), nth(dg, m) == SP.uint32_le(d, cst + 4 * rk)), Implies(Not(nth(dd, m)), nth(dg, m) == 0))),
+                )
+
+            out.append(("digests-from-folder-or-record", ForAll(DQd, guard=lambda m: And(m >= 0, m < total), over=dd, trigger=False)))
+            cst = ite(shortcut, q + 1, q + 1 + ceil8(ndf))
+            pC = cst + 4 * rank(c, "rdef", defined, ndf)
+        else:
+            pC = pB
+        out.append(("end-marker-consumed", And(nth(d, pC) == 0, c.pos(file) == pC + 1, pC < L(d))))
         return out
 
     def loops(self):
